@@ -85,7 +85,7 @@ pub fn meta(id: &str) -> Option<CheckMeta> {
         "C05" => Some(CheckMeta {
             id: "C05",
             level: "exploration",
-            rule: "a case is 2-4 client programs (3-14 ops each: put/delete/batch/get/flush over 2-6 keys incl. the empty key, unique values) on a 512-1500 byte memtable, plus 1-4 generated schedule directives (thread T is held at the n-th hit of hook point P - get.unlocked, get.before_version, write.before_wal/after_wal/mid_memtable/after_memtable for clients; flush.before_build, manifest.before/after_append, compaction.step, gc.before/after_delete for the background thread - until all other clients finished or a 20-150 ms safety timeout) or no directives (natural schedule); every op is recorded with invocation/response stamps from one global counter, a quiescent final get of every key is appended, and every key's history is decided by a complete Wing-Gong/Lowe linearizability search with memoisation over a register with deletes (a simple single-read witness is printed when one exists; the checker is self-tested on simulated atomic histories before every run). Every call must return Ok in these fault-free runs. Non-trivial = a get's interval contained a memtable rotation, version install or file deletion (event counters), or a group commit of several writers occurred; distinct by case hash".into(),
+            rule: "a case is 2-4 client programs (3-14 ops each: put/delete/batch/get/flush over 2-6 keys incl. the empty key, unique values) on a 512-1500 byte memtable, plus 1-4 generated schedule directives (thread T is held at the n-th hit of hook point P - get.unlocked, get.before_version, write.before_wal/after_wal/mid_memtable/after_memtable for clients; flush.before_build, manifest.before/after_append, compaction.step, gc.before/after_delete for the background thread - until all other clients finished or a 20-150 ms safety timeout) or no directives (natural schedule); every op is recorded with invocation/response stamps from one global counter, a quiescent final get of every key is appended, and every key's history is decided by a complete Wing-Gong/Lowe linearizability search with memoisation over a register with deletes (a simple single-read witness is printed when one exists; the checker is self-tested on simulated atomic histories before every run). Every call must return Ok in the fault-free runs. A third campaign adds one sticky failure of the n-th write to a write-ahead log under forced schedules that hold writers before the WAL append (so that followers queue up and group commits form): a write that returned Err is an indeterminate operation (may take effect at any later point or never), one that returned Ok is definite, so a follower that was told Ok although its group commit failed shows up as a lost write. Non-trivial = a get's interval contained a memtable rotation, version install or file deletion (event counters), or a group commit of several writers occurred; distinct by case hash".into(),
             assumptions: vec![
                 "per-key linearizability is a necessary condition of linearizability of the whole store (locality); cross-key atomicity is C06".into(),
                 "windows that do not cross a hook point (inside the skip list or ArcSwap) are only reached by natural schedules".into(),
@@ -103,7 +103,7 @@ pub fn meta(id: &str) -> Option<CheckMeta> {
         "C17" => Some(CheckMeta {
             id: "C17",
             level: "exploration",
-            rule: "on raindb's own TmpFileSystem (real files, real flock) 2-6 threads execute generated programs over Open / OpenRetry (keep trying for 25 ms, so that the attempt lands inside another thread's close) / Close / WriteClose (write 40 values so that flushes and compactions are in flight, then close at once) / Destroy / Write (through an owned handle) in 2-8 rounds; all operations of a round are released together by a barrier. A harness-side owner ledger judges every round: while a handle that is not being closed in that round is alive, every open and every destroy_database must fail; when nobody holds the database, at most one of the racing opens succeeds and (absent a racing destroy or close) exactly one does; after every round each owner reads back up to 40 acknowledged keys and writes a probe key (failed attempts do not disturb the running instance); a filesystem wrapper stamps every mutating call, and once an open has succeeded no background thread of an earlier instance may still modify the directory (an instance keeps its ownership until it has finished closing); at the end the database opens, holds every acknowledged key, refuses destroy while open and is destroyed after close. Non-trivial = a round with >=2 attempts against a live owner, opens racing with a close, or >=2 racing opens without an owner; distinct by case hash".into(),
+            rule: "on raindb's own TmpFileSystem (real files, real flock) 2-6 threads execute generated programs over Open / OpenRetry (keep trying for 25 ms, so that the attempt lands inside another thread's close) / Close / WriteClose (write 40 values so that flushes and compactions are in flight, then close at once) / Destroy / Write (through an owned handle) in 2-8 rounds; all operations of a round are released together by a barrier. A harness-side owner ledger judges every round: while a handle that is not being closed in that round is alive, every open and every destroy_database must fail; when nobody holds the database, at most one of the racing opens succeeds and (absent a racing destroy or close) exactly one does; after every round each owner finds its CURRENT and LOCK files still in place, reads back up to 40 keys acknowledged during its ownership and writes a probe key (failed attempts do not disturb the running instance); a filesystem wrapper stamps every mutating call, and once an open has succeeded no background thread of an earlier instance may still modify the directory (an instance keeps its ownership until it has finished closing); at the end the database opens, holds every acknowledged key, refuses destroy while open and is destroyed after close. Non-trivial = a round with >=2 attempts against a live owner, opens racing with a close, or >=2 racing opens without an owner; distinct by case hash".into(),
             assumptions: vec!["uses real files under the system temp directory (removed when the case ends)".into()],
         }),
         "C12" => Some(CheckMeta {
